@@ -226,35 +226,37 @@ def run_all_inspections(
         base_path_backup = in_toto.settings.ARTIFACT_BASE_PATH
         in_toto.settings.ARTIFACT_BASE_PATH = None
 
-        # FIXME: What should we record as material/product?
-        # Is the current directory a sensible default? In general?
-        # If so, we should probably make it a default in run_link
-        # We could use artifact rule paths.
-        material_list = product_list = ["."]
-        link = in_toto.runlib.in_toto_run(
-            inspection.name,
-            material_list,
-            product_list,
-            inspection.run,
-            timeout=timeout,
-        )
-
-        _raise_on_bad_retval(
-            link.signed.byproducts.get("return-value"), inspection.run
-        )
-
-        inspection_links_dict[inspection.name] = link.signed
-
-        # If client requests persistent inspection links,
-        # Dump the inspection link file for auditing
-        # Keep in mind that this pollutes the verifier's (client's) filesystem.
-        if persist_inspection_links:
-            filename = in_toto.models.link.FILENAME_FORMAT_SHORT.format(
-                step_name=inspection.name
+        try:
+            # FIXME: What should we record as material/product?
+            # Is the current directory a sensible default? In general?
+            # If so, we should probably make it a default in run_link
+            # We could use artifact rule paths.
+            material_list = product_list = ["."]
+            link = in_toto.runlib.in_toto_run(
+                inspection.name,
+                material_list,
+                product_list,
+                inspection.run,
+                timeout=timeout,
             )
-            link.dump(filename)
 
-        in_toto.settings.ARTIFACT_BASE_PATH = base_path_backup
+            _raise_on_bad_retval(
+                link.signed.byproducts.get("return-value"), inspection.run
+            )
+
+            inspection_links_dict[inspection.name] = link.signed
+
+            # If client requests persistent inspection links,
+            # Dump the inspection link file for auditing
+            # Keep in mind that this pollutes the verifier's (client's) filesystem.
+            if persist_inspection_links:
+                filename = in_toto.models.link.FILENAME_FORMAT_SHORT.format(
+                    step_name=inspection.name
+                )
+                link.dump(filename)
+
+        finally:
+            in_toto.settings.ARTIFACT_BASE_PATH = base_path_backup
 
     return inspection_links_dict
 
